@@ -173,7 +173,14 @@ func isComment(s []byte) bool {
 
 func (p *programSplitter) readProgram() Program {
 	var prog Program
-	for !p.eof {
+	for {
+		// Blank lines are allowed before a change header.
+		for !p.eof && len(bytes.TrimSpace(p.text)) == 0 {
+			p.next()
+		}
+		if p.eof {
+			break
+		}
 		prog = append(prog, p.readChange())
 	}
 	if len(prog) == 0 {
